@@ -156,7 +156,7 @@ def run_c14(ctx):
 
 def run_c16(ctx):
     devs = known_devs()
-    allsets = ["s1", "s2", "s3", "s4", "s5", "s6", "s7", "s8", "s9", "s10", "s11", "s12"]
+    allsets = ["s1", "s2", "s3", "s4", "s5", "s6", "s7", "s8", "s9", "s10", "s11", "s12", "s13"]
     # quick: the 6-definition set s8 and the 5-definition sets dominate the cost; permutations are thinned below
     # quick: every set, every extend-move and every cut pattern stays represented; the arrangements replayed are thinned
     keep = (lambda i: i % 8 == ctx.seed % 8) if ctx.tier == "quick" else None
@@ -172,6 +172,12 @@ def run_c16(ctx):
                        vec_filter=keep2)
     vlib.require_clean(res, "MCArrange (introspection between the loads)")
     loadhist(ctx, res.vecs, "arrangements-asked-between-loads", {"verdict", "schema", "intro"}, devs, extra=["-intro"])
+    # "resolve requests identically": requests derived from the schema (argument and input field defaults) asked after every load;
+    # the final answers must be those of a root that loaded the same definitions as one document
+    res = vlib.run_tlc(ctx, "MCArrange", ARRANGE_CFG.format(known=tlaset(sorted(devs)), intro="FALSE", sets=tlaset(["s13", "s3"])), timeout=3400, xss="64m",
+                       vec_filter=(lambda i: i % 4 == ctx.seed % 4) if ctx.tier == "quick" else None)
+    vlib.require_clean(res, "MCArrange (requests)")
+    loadhist(ctx, res.vecs, "arrangements-requests", {"verdict", "schema", "requests"}, devs, extra=["-requests"])
     record_and_judge(ctx, devs, 300 if ctx.tier == "quick" else 4000)
     ctx.exhaustive = ctx.tier == "thorough"
     ctx.rule = ("for each of 8 definition sets (6 valid, 2 invalid; all kinds, directive uses with and without default arguments, a schema block): every "
